@@ -6,7 +6,7 @@ import argparse, json, os, re, sys
 VERIF = os.path.dirname(os.path.dirname(os.path.abspath(__file__)))
 ap = argparse.ArgumentParser()
 ap.add_argument("log")
-ap.add_argument("--rounds", default="1,2,3,4,5,6")
+ap.add_argument("--rounds", default="1,2,3,4,5,6,7")
 ap.add_argument("--compact", action="store_true", help="one short row per seed (for DESIGN.md); default: long form with the summary (seeded/INDEX.md)")
 a = ap.parse_args()
 rounds = {int(x) for x in a.rounds.split(",")}
@@ -31,7 +31,8 @@ for name in sorted(os.listdir(os.path.join(VERIF, "seeded"))):
         kind = "bug (obsolete)"
     summ = re.sub(r"\s+", " ", (m.get("summary") or "")).replace("|", "/")[:170]
     if kind == "refactor":
-        res = "all 20 checks exit 0" if st == "OK" else f"**{st}**: {info[:80]}"
+        tol = m.get("tolerate_exit2") or []
+        res = ("all 20 checks exit 0" if not tol else f"no check fires; {', '.join(tol)} may stop at exit 2 (idiom not read, see the seed's note)") if st == "OK" else f"**{st}**: {info[:80]}"
     elif kind == "bug":
         res = ("VIOLATION by " + info.replace(" fired", "")) if st == "OK" else f"**{st}**: {info[:80]}"
     else:
